@@ -43,7 +43,8 @@ def extract_str_template(src, rep):
     fbody = normalize.unroll_const_loops(f.node).body
 
     def run(dec):
-        it = strlang.Interp(dec, cls='PkgRelation', depth=6, methods=strlang.class_helpers(f.module, 'PkgRelation', skip=('str', '__str__')))
+        it = strlang.Interp(dec, cls='PkgRelation', depth=6, methods=strlang.class_helpers(f.module, 'PkgRelation', skip=('str', '__str__')),
+                            tables=strlang.class_tables(f.module, 'PkgRelation'))
         env = {pname: rels}
         r = it.run(fbody, env)
         if r is None or r[0] != 'return':
